@@ -346,6 +346,70 @@ class MockHosts:
                 pass
 
 
+class SlowAcceptHost:
+    """a host whose listen queue is full: a TCP connect to it does not complete until `hold_s` seconds have passed (the client's SYN is
+    retransmitted, so it completes about a second after the queue is emptied); with hold_s None it never completes. Once connected,
+    every request is answered 200 "slow-host"."""
+
+    def __init__(self, ip, port, hold_s):
+        self.addr = (ip, port)
+        self.s = socket.socket(socket.AF_INET, socket.SOCK_STREAM)
+        self.s.setsockopt(socket.SOL_SOCKET, socket.SO_REUSEADDR, 1)
+        self.s.bind(self.addr)
+        self.s.listen(0)
+        self.fillers = []
+        for _ in range(3):                       # the queue of listen(0) holds one or two established connections
+            f = socket.socket()
+            f.setblocking(False)
+            try:
+                f.connect(self.addr)
+            except (BlockingIOError, OSError):
+                pass
+            self.fillers.append(f)
+        self.stop = False
+        self.requests = []
+        if hold_s is not None:
+            threading.Thread(target=self._run, args=(hold_s,), daemon=True).start()
+
+    def _run(self, hold_s):
+        time.sleep(hold_s)
+        self.s.settimeout(0.3)
+        while not self.stop:
+            try:
+                c, _ = self.s.accept()
+            except OSError:
+                continue
+            threading.Thread(target=self._serve, args=(c,), daemon=True).start()
+
+    def _serve(self, c):
+        buf = b""
+        try:
+            while True:
+                buf, ok = read_until(c, buf, b"\r\n\r\n", 10)
+                if not ok:
+                    return
+                i = buf.find(b"\r\n\r\n")
+                self.requests.append(buf[:i])
+                buf = buf[i + 4:]
+                c.sendall(b"HTTP/1.1 200 OK\r\ncontent-type: text/plain\r\ncontent-length: 9\r\n\r\nslow-host")
+        except OSError:
+            return
+        finally:
+            c.close()
+
+    def close(self):
+        self.stop = True
+        for f in self.fillers:
+            try:
+                f.close()
+            except OSError:
+                pass
+        try:
+            self.s.close()
+        except OSError:
+            pass
+
+
 # ----------------------------------------------------------------------------- client
 
 class ClientConn:
